@@ -108,7 +108,7 @@ func init() {
 		Rule:   "cases = (limit in {-1,0,1,2,3,5}, handler set or nil, submitter script of Go/Wait over tasks that yield, block on a gate and/or panic with a string, error or struct, followed by limit+1 gate-blocked tasks) drawn from the run seed; a run is non-trivial when >=2 goroutines were parked at once and >=1 switch between goroutines happened; distinct = distinct hash of the sequence of quiescent states (parked goroutines and their statements) and choices",
 		Assume: []string{"testing/synctest (go1.26.8) reports quiescence correctly; between two decisions only the released goroutine and goroutines it unblocks run, each stopping at its next statement"}}
 	props["C09"] = &propCfg{ID: "C09", Engine: "C", Pkgs: "cryptz", Imports: "crypto/rand=scrand", Level: "fault_enumeration", QuickS: 20, ThorS: 480,
-		Real:   []string{"cryptz/crypt.go, cryptz/aes.go, strz/enc.go (every statement)", "Go standard crypto (aes, cipher, md5) inside golib"},
+		Real:   []string{"cryptz/crypt.go, cryptz/aes.go, strz/enc.go (every statement)", "Go standard crypto (aes, cipher, md5) inside golib", "the real `openssl enc -aes-256-cbc -md md5` binary when present (28 messages both ways per check; optional)"},
 		Stubs:  []string{"crypto/rand.Reader (seeded/extreme bytes, short reads, errors)", "io.Reader peer (7 chunking policies, error after k bytes, data together with EOF or error, zero-length reads)", "io.Writer peer (error after k bytes)", "storage/transport medium (bit flips per field, truncation, extension, text substitution, wrong secret/AAD)"},
 		Rule:   "cases = (scenario of 8 classes, plaintext/secret/AAD lengths, generic instantiation string|[]byte, entropy plan, reader and writer chunking policies, fault position, medium fault kind/position/bit) drawn from the run seed, fault-free and faulted classes kept apart; non-trivial = at least one fault or non-default peer behaviour actually fired (short/zero/EOF-with-data read, peer error, entropy error/short read/extreme bytes, medium fault, garbage input); distinct = distinct hash of (params, env seed) over such runs",
 		Assume: append([]string{"the reference derivation (crypto/md5, crypto/aes, cipher.NewCBCEncrypter/NewGCM/NewCTR of the Go standard library) is EVP_BytesToKey(MD5, 1 round) / openssl enc -aes-256-cbc -md md5", "a hex substitution that decodes to the same bytes is not a difference of the encoded message"}, seqAssume...)}
